@@ -1312,13 +1312,99 @@ def sym_abs(x):
     return _abs(x)
 
 
+class SymRange:
+    """stands for a range object inside the code under test: iteration and len()
+    as the real range; membership of a symbolic value is decided arithmetically
+    (the real range would compare it with every element in turn)"""
+    __slots__ = ("start", "stop", "step", "_sym")
+
+    def __init__(self, start, stop, step):
+        self.start, self.stop, self.step = start, stop, step
+        self._sym = type(start) is SymInt or type(stop) is SymInt
+
+    def _real(self):
+        return _range(self.start, self.stop, self.step)
+
+    def __iter__(self):
+        if not self._sym:
+            return iter(self._real())
+        start, stop, step = self.start, self.stop, self.step
+
+        def gen():
+            i = start
+            if step > 0:
+                while i < stop:
+                    yield i
+                    i = i + step
+            else:
+                while i > stop:
+                    yield i
+                    i = i + step
+        return gen()
+
+    def __reversed__(self):
+        if not self._sym:
+            return reversed(self._real())
+        return iter(reversed(list(self)))
+
+    def __len__(self):
+        if not self._sym:
+            return _len(self._real())
+        return _len(list(self))
+
+    def __getitem__(self, k):
+        if not self._sym:
+            return self._real()[k]
+        return list(self)[k]
+
+    def __contains__(self, x):
+        if not self._sym and not (type(x) is SymInt or type(x) is SymBool or type(x) is SymRatio):
+            return x in self._real()
+        if type(x) is SymRatio:
+            if not x.is_integer():
+                return False
+            x = x.trunc()
+        start, stop, step = self.start, self.stop, self.step
+        if step > 0:
+            if not (x >= start and x < stop):
+                return False
+        else:
+            if not (x <= start and x > stop):
+                return False
+        if step in (1, -1):
+            return True
+        return bool((x - start) % abs(step) == 0)
+
+    def __bool__(self):
+        if not self._sym:
+            return bool(self._real())
+        return bool(self.start < self.stop) if self.step > 0 else bool(self.start > self.stop)
+
+    def __eq__(self, o):
+        if _isinstance(o, SymRange):
+            o = o._real() if not o._sym else o
+        if self._sym or _isinstance(o, SymRange):
+            raise Unsupported("comparison of symbolic ranges")
+        return self._real() == o
+
+    def __hash__(self):
+        if self._sym:
+            raise Unsupported("hash of a symbolic range")
+        return _hash(self._real())
+
+    def __repr__(self):
+        return "range(%r, %r%s)" % (self.start, self.stop, "" if self.step == 1 else ", %r" % (self.step,))
+
+    def index(self, x):
+        if self._sym:
+            raise Unsupported("index in a symbolic range")
+        return self._real().index(x)
+
+    def count(self, x):
+        return 1 if x in self else 0
+
+
 def sym_range(*a):
-    sym = False
-    for x in a:
-        if type(x) is SymInt:
-            sym = True
-    if not sym:
-        return _range(*a)
     if _len(a) == 1:
         start, stop, step = 0, a[0], 1
     elif _len(a) == 2:
@@ -1326,19 +1412,13 @@ def sym_range(*a):
     else:
         start, stop, step = a
     if type(step) is SymInt or step == 0:
-        raise Unsupported("range step")
-
-    def gen():
-        i = start
-        if step > 0:
-            while i < stop:
-                yield i
-                i = i + step
-        else:
-            while i > stop:
-                yield i
-                i = i + step
-    return gen()
+        if type(step) is SymInt:
+            raise Unsupported("range step")
+        return _range(*a)       # raises the real ValueError
+    for x in (start, stop, step):
+        if type(x) is not SymInt and not _isinstance(x, _int):
+            return _range(*a)   # raises the real TypeError
+    return SymRange(start, stop, step)
 
 
 class HashKey:
